@@ -370,13 +370,29 @@ func progsC05(rc *vk.Rec, env *wprog.Env) {
 	const phase = "progs-c05"
 	nTotal := rc.N(160, 6000)
 	maxVar := 48
-	for idx := int64(0); idx < int64(nTotal); idx++ {
+	// every split-independent family/variant is run at least twice whatever the
+	// seed (spread over the shards), then the seeded random sample
+	nEnum := 2 * len(wprog.SplitIndependentIDs)
+	for idx := int64(0); idx < int64(nTotal+nEnum); idx++ {
 		if rc.SkipCase(phase, idx) {
 			continue
 		}
+		o := wprog.GenOptions{Variant: -1, MaxScens: 1, MaxCalls: 1 << 20}
+		if idx >= int64(nTotal) {
+			k := int(idx - int64(nTotal))
+			if rc.Only < 0 && k%rc.NShards != rc.Shard {
+				continue
+			}
+			id := wprog.SplitIndependentIDs[k%len(wprog.SplitIndependentIDs)]
+			o.Family = id[:strings.LastIndex(id, "/v")]
+			fmt.Sscanf(id[strings.LastIndex(id, "/v")+2:], "%d", &o.Variant)
+		}
 		rc.Mark(phase, idx)
 		r := rc.RNG(phase, idx)
-		c := wprog.GenCase(r, wprog.GenOptions{Family: c05Families[r.Intn(len(c05Families))], Variant: -1, MaxScens: 1, MaxCalls: 1 << 20})
+		if o.Family == "" {
+			o.Family = c05Families[r.Intn(len(c05Families))]
+		}
+		c := wprog.GenCase(r, o)
 		if c == nil || !wprog.SplitIndependent(c.ID) {
 			continue
 		}
